@@ -1262,19 +1262,21 @@ class Engine:
 
     def ex_IfExp(self, e, st, spec):
         c = self.truthy(self.ev(e.test, st, spec), st)
+        d = self.decide(c, st)
+        if d is True:
+            return self.ev(e.body, st, spec)
+        if d is False:
+            return self.ev(e.orelse, st, spec)
+        has_call = any(isinstance(n, (ast.Call, ast.Subscript, ast.BinOp)) for b in (e.body, e.orelse) for n in ast.walk(b))
+        if has_call and not spec:
+            # a branch with calls / subscripts / divisions is only evaluated on the path where it is taken
+            raise Split(c)
         a = self.ev(e.body, st, spec)
         b = self.ev(e.orelse, st, spec)
-        if z3.is_true(z3.simplify(c)):
-            return a
-        if z3.is_false(z3.simplify(c)):
-            return b
         try:
             return V.ite(c, a, b)
         except EngineError:
-            d = self.decide(c, st)
-            if d is None:
-                raise Split(c)
-            return a if d else b
+            raise Split(c)
 
     def ex_BinOp(self, e, st, spec):
         a = self.ev(e.left, st, spec)
